@@ -221,6 +221,40 @@ func genCLI(seed uint64, prop, tier, mode string) *Plan {
 		} else if !faultFree && g.Chance(0.03) {
 			st.Cfg, st.CfgFault = -2, "missing" // -config pointing nowhere, no configuration in the plan
 		}
+		// a step aimed at the interplay of -config and selection: the selection keeps a lint the
+		// configuration names, the input is an object on which that lint has a verdict
+		cfgAimed := -1
+		if si == 1 && len(p.Cfgs) > 0 && len(p.Cfgs[0].Targets) > 0 {
+			T := pick(g, p.Cfgs[0].Targets)
+			for oi := range p.Objects {
+				if oi >= nObj { // appended by the configuration bias above
+					cfgAimed = oi
+				}
+			}
+			if cfgAimed >= 0 {
+				st.Cfg, st.CfgFault, st.SelFault = 0, "", ""
+				o := &FilterOpts{}
+				switch g.Intn(3) {
+				case 0:
+					o.IncludeNames = []string{T}
+					for _, j := range g.subset(len(realNames), g.Range(0, 10)) {
+						o.IncludeNames = append(o.IncludeNames, realNames[j])
+					}
+				case 1:
+					o.IncludeSources = []string{meta.ByName[T].Source}
+				case 2:
+					for _, j := range g.subset(len(realNames), g.Range(1, 5)) {
+						if realNames[j] != T {
+							o.ExcludeNames = append(o.ExcludeNames, realNames[j])
+						}
+					}
+					if len(o.ExcludeNames) == 0 {
+						o.IncludeNames = []string{T}
+					}
+				}
+				st.Sel = o
+			}
+		}
 		// ---- inputs
 		stdin := g.Chance(0.35)
 		nIn := 1
@@ -237,6 +271,9 @@ func genCLI(seed uint64, prop, tier, mode string) *Plan {
 		}
 		for k := 0; k < nIn; k++ {
 			in := CLIInput{Obj: g.Intn(len(p.Objects)), Enc: enc, Channel: "file"}
+			if cfgAimed >= 0 && k == 0 {
+				in.Obj = cfgAimed
+			}
 			if stdin {
 				in.Channel = pick(g, []string{"stdin", "stdin-dash"})
 				switch g.Intn(5) {
